@@ -77,6 +77,24 @@ impl Mat {
     }
 }
 
+/// the same code with one or two extra bits that take part in no check (zero-weight columns, e.g. filler bits),
+/// inserted at random positions
+pub fn add_isolated_columns(m: &Mat, rng: &mut Rng) -> Mat {
+    let extra = rng.range(1, 2);
+    let mut e = m.e.clone();
+    let mut cols = m.cols;
+    for _ in 0..extra {
+        let at = rng.below(cols + 1);
+        for x in e.iter_mut() {
+            if x.1 >= at {
+                x.1 += 1;
+            }
+        }
+        cols += 1;
+    }
+    Mat::new(m.rows, cols, e, m.family)
+}
+
 pub fn from_sparse(h: &SparseMatrix) -> Entries {
     let mut e: Entries = h.iter_all().collect();
     e.sort_unstable();
